@@ -1,13 +1,50 @@
 //! Correspondence harness of property C07 (hash gadgets equal their reference functions).
+//!
+//! * `h-c07 --dump-sha-gates FILE`: runs the REAL `Sha256Chip::configure` and writes its gate
+//!   polynomials and lookup arguments as expression ASTs (JSON) for `translators/c07_shagates.py`.
+//! * `h-c07 --tier T --seed S --out DIR`: correspondence + oracle run.
 use mzkh::Ctx;
 
 mod bytes;
 mod circuits;
 mod poseidon;
+mod rec;
+mod shachip;
 
 fn main() {
+    let args: Vec<String> = std::env::args().collect();
+    if args.len() >= 3 && args[1] == "--dump-sha-gates" {
+        shachip::dump_gates(&args[2]);
+        return;
+    }
+    if args.len() >= 3 && args[1] == "--sha-trace-debug" {
+        let len: usize = args[2].parse().unwrap();
+        let msg: Vec<u8> = (0..len).map(|j| (j * 7 + 1) as u8).collect();
+        let t = shachip::record(&msg);
+        for (k, l) in t.regions.iter().enumerate() {
+            println!("{k} {l}");
+        }
+        println!("outputs {}", t.outputs.join(","));
+        println!("externals {}", t.externals);
+        return;
+    }
     let mut ctx = Ctx::from_args("C07");
-    poseidon::run(&mut ctx);
-    bytes::run(&mut ctx);
+    // debugging aid: VERIF_C07_ONLY=shachip runs the chip-wiring part alone
+    let only = std::env::var("VERIF_C07_ONLY").unwrap_or_default();
+    if only == "shachip" {
+        shachip::run(&mut ctx);
+        ctx.finish();
+        return;
+    }
+    if ctx.search() {
+        // the targeted wiring sweep first: it is the one that turns a broken trace tie into a replay
+        shachip::run(&mut ctx);
+        poseidon::run(&mut ctx);
+        bytes::run(&mut ctx);
+    } else {
+        poseidon::run(&mut ctx);
+        bytes::run(&mut ctx);
+        shachip::run(&mut ctx);
+    }
     ctx.finish();
 }
